@@ -43,7 +43,7 @@ def floors(tier):
             "path:sequential": 10 if q else 100, "path:parallel": 6 if q else 60, "workers_killed": 10 if q else 200, "reported_cycles_verified": 20 if q else 300,
             "timeout:0": 3, "timeout:1": 3, "timeout:2": 3, "timeout:-1": 3, "timeout:120": 3, "no_child_left_checked": 30 if q else 300,
             "monitor:clock_polls": 30, "tp_cp_compared": 30 if q else 300, "virtual_strikes": 40 if q else 600,
-            "completeness_checked_by_own_enumeration": 15 if q else 200, "structured_report_compared": 30 if q else 300}
+            "completeness_checked_by_own_enumeration": 15 if q else 200, "structured_report_compared": 30 if q else 300, "parent_pauses_checked": 20 if q else 200}
 
 
 def plan(tier, seed):
@@ -102,7 +102,7 @@ class Probes:
                 return t
 
             def sleep(self_, s):
-                probe.events.append(("sleep", s))
+                probe.events.append(("sleep", s, real_time.time()))
                 if probe.virtual:
                     probe.vnow += s
                     return None
@@ -128,7 +128,7 @@ class Probes:
             def start(self_):
                 probe.events.append(("start", None))
                 r = RealProcess.start(self_)
-                probe.events.append(("started", self_.pid))
+                probe.events.append(("started", self_.pid, real_time.time()))
                 return r
 
             def join(self_, *a):
@@ -417,6 +417,15 @@ def one_run(probes, arch, fn, timeout, R, case, reference=None, expect_complete=
     R.observe("kill_points", "%d of %d workers killed" % (len(kills), len(starts)))
     if starts and len(set(j[1] for j in joins)) < len(set(s[1] for s in starts)):
         R.violation("worker-not-joined", "%d workers started, %d joined" % (len(starts), len(set(j[1] for j in joins))), case)
+    # bounded overhead, decided on what the waiting parent asks for (not on how long this machine took): while workers are searching,
+    # no pause may be requested that ends more than a second after the deadline counted from the start of the last worker
+    if starts and timeout >= 0 and not probes.virtual:
+        t_go = max(e[2] for e in starts)
+        R.count("parent_pauses_checked", sum(1 for e in probes.events if e[0] == "sleep"))
+        late = [(round(e[2] - t_go, 2), e[1]) for e in probes.events if e[0] == "sleep" and e[2] + e[1] > t_go + timeout + 1.0]
+        if late:
+            R.violation("overshoot/pause-ends-after-the-deadline", "timeout %ss: %.2fs after the workers started the parent asks for a pause of %.2fs (%d such pauses)"
+                        % (timeout, late[0][0], late[0][1], len(late)), case)
     if bool(inst.timed_out) != warned:
         R.violation("warning/flag-and-report-disagree", "timed_out=%s but the report %s the time-out warning" % (inst.timed_out, "shows" if warned else "does not show"), case)
     try:
